@@ -564,6 +564,12 @@ def pipeline_rules(rep, prog):
               "pdag_to_cpdag swallows the ValueError or does not complete the extension it found")
 
 
+def _comp_names(t):
+    """target names of the comprehensions inside a term (the name is part of a comp term; the rule does not care which it is)"""
+    out = {g[0] for x in walk(t) if isinstance(x, tuple) and len(x) == 4 and x[0] == "comp" for g in x[3]} if t is not None else set()
+    return sorted(out) or ["j"]
+
+
 def search_rules(rep, prog):
     """the consistent-extension search pdag_to_dag: one ValueError exit, the local matrix and the list of real node names shrink together, the
     removed sink's undirected edges are oriented towards it under real names (shared with C09)"""
@@ -605,9 +611,19 @@ def search_rules(rep, prog):
         # neither the result, the name list nor the shrinking matrix is a local variable carried by the loop (an object keeps the state): not read
         rep.unk("INDEX.init", fwhere(f2), "the state of the extension search (result, real names, remaining matrix) is not kept in local variables of pdag_to_dag: not read")
         return
-    rep.check("INDEX.init", init_ok, fwhere(f2), "result starts as only_directed(P); real names = list(range(len(P)))", "initial state of the extension search changed")
     if not init_ok:
+        # decided only for a start value that is read and wrong: the result carried by the loop starts from something else than the directed part (an
+        # empty matrix, P itself), or the name list from something else than 0..p-1.  A result that is not carried by the search loop at all (orientations
+        # collected and written after the search) is another form
+        others = {k: v for k, v in outer["init"].items() if k not in nG + nI + nP}
+        wrongG = [k for k, v in others.items() if not nG and (zeros_of(v, like=(P,)) or (v[0] == "method" and v[2] == "copy" and v[1] == P) or (v[0] == "ext" and v[1] in ("numpy.zeros_like", "numpy.zeros", "numpy.array", "numpy.copy")))]
+        wrongI = [k for k, v in others.items() if not nI and v[0] == "ext" and v[1] in ("list", "numpy.arange", "range")]
+        if len(nP) == 1 and (wrongG or wrongI):
+            rep.check("INDEX.init", False, fwhere(f2), "", "initial state of the extension search changed: %s" % "; ".join("%s = %s" % (k, fmt(others[k])[:50]) for k in wrongG + wrongI))
+        else:
+            rep.unk("INDEX.init", fwhere(f2), "the result / the real names are not carried by the search loop from only_directed(P) / list(range(len(P))): this form of the search is not read")
         return
+    rep.ok("INDEX.init", fwhere(f2), "result starts as only_directed(P); real names = list(range(len(P)))")
     nG, nI, nP = nG[0], nI[0], nP[0]
     # the scan index: the loop-carried integer that starts at 0
     ni = [k for k, v in inner["init"].items() if is_const(v, 0) and not isinstance(v[1], bool)]
@@ -627,10 +643,15 @@ def search_rules(rep, prog):
     else:
         mui = ("mu", li_, ni[0])
         nPx, nIx = inner["next"].get(nP), inner["next"].get(nI)
-    allbut = ("ext", "list", (("binop", "-", ("ext", "set", (("ext", "range", (("ext", "len", (muP,), ()),), ()),), ()), ("set", (mui,))),), ())
+    rng_ = ("ext", "range", (("ext", "len", (muP,), ()),), ())
+    allbut = ("ext", "list", (("binop", "-", ("ext", "set", (rng_,), ()), ("set", (mui,))),), ())
+    el_ = ("elem", rng_)
+    # the same index list, spelled as a comprehension / sorted set difference (all ascending, without i)
+    allbuts = [allbut, ("ext", "sorted", (("binop", "-", ("ext", "set", (rng_,), ()), ("set", (mui,))),), ())] + \
+              [("comp", "list", el_, ((nm_, rng_, (cnd_,)),)) for nm_ in _comp_names(nPx) for cnd_ in (("cmp", "!=", el_, mui), ("cmp", "!=", mui, el_), ("unop", "not", ("cmp", "==", el_, mui)), ("unop", "not", ("cmp", "==", mui, el_)))]
     FULL = ("slice", ("const", None), ("const", None), ("const", None))
-    shr = ("sub", ("sub", muP, ("tuple", (allbut, FULL))), ("tuple", (FULL, allbut)))
-    ok = nPx is not None and nIx is not None and nPx[0] == "phi" and nIx[0] == "phi" and nPx[1] == nIx[1] and nPx[2] == shr and nPx[3] == muP and \
+    shrs = [("sub", ("sub", muP, ("tuple", (ab_, FULL))), ("tuple", (FULL, ab_))) for ab_ in allbuts]
+    ok = nPx is not None and nIx is not None and nPx[0] == "phi" and nIx[0] == "phi" and nPx[1] == nIx[1] and nPx[2] in shrs and nPx[3] == muP and \
         nIx[2] == ("mut", muI, "remove", (("sub", muI, mui),)) and nIx[3] == muI
     rep.check("INDEX.pairing", ok, fwhere(f2, inner["node"]), "the local matrix drops row/column i exactly when the real-name list drops indexes[i], under the same condition",
               "the local matrix and the real-name list do not shrink together: P' = %s ; indexes' = %s" % (fmt(nPx)[:100] if nPx else None, fmt(nIx)[:100] if nIx else None))
@@ -639,7 +660,9 @@ def search_rules(rep, prog):
     if len(st) == 1 and st[0].idx[0] == "tuple":
         r, c = st[0].idx[1]
         nb = ("call", U + "neighbors", (mui, muP), (("A", muP), ("i", mui)))
-        okw = c == ("sub", muI, mui) and r[0] == "elem" and r[1][0] == "comp" and r[1][2] == ("sub", muI, ("elem", nb)) and is_const(st[0].value, 1)
+        # row: the real name of a neighbour - an element of [indexes[j] for j in n_i], or indexes[j] for j in n_i directly
+        row_ok = (r[0] == "elem" and r[1][0] == "comp" and r[1][2] == ("sub", muI, ("elem", nb))) or r == ("sub", muI, ("elem", nb))
+        okw = c == ("sub", muI, mui) and row_ok and is_const(st[0].value, 1)
     rep.check("INDEX.real-names", okw, fwhere(f2, st[0].node if st else None), "undirected edges of the removed sink are oriented as G[indexes[nbr], indexes[i]] = 1 (real names on both axes, towards the sink)",
               "the orientation store does not use real node names on both axes / points away from the sink")
 
